@@ -315,10 +315,18 @@ class Ctx:
         sys.stdout.flush()
 
     def drift(self, what):
-        if what not in self.drifts:
+        # (a set next to the list: thousands of drift lines must not cost quadratic time; the evidence keeps the first 2000)
+        if not hasattr(self, "_driftset"):
+            self._driftset = set(self.drifts)
+            self.ndrifts = len(self.drifts)
+        if what in self._driftset:
+            return
+        self._driftset.add(what)
+        self.ndrifts += 1
+        if len(self.drifts) < 2000:
             self.drifts.append(what)
-            if len(self.drifts) <= 10:
-                print("SPEC-DRIFT: property=%s %s" % (self.pid, what))
+        if self.ndrifts <= 10:
+            print("SPEC-DRIFT: property=%s %s" % (self.pid, what))
 
     def absorb(self, verdicts, files, describe=None):
         """Route trace-validation verdict lines: 'P:<pid>:what' contradicts property <pid> (a VIOLATION only for this
@@ -364,7 +372,7 @@ class Ctx:
         json.dump(ev, open(os.path.join(EVDIR, self.pid + ".json"), "w"), indent=1)
         print("%s %s seed=%d: states=%d transitions=%d traces=%d events=%d violations=%d drifts=%d wall=%.1fs" % (
             self.pid, self.tier, self.seed, self.states, self.transitions, self.traces, self.events, len(self.violations),
-            len(self.drifts), wall))
+            getattr(self, "ndrifts", len(self.drifts)), wall))
         return 1 if self.violations else 0
 
 
